@@ -8,6 +8,7 @@ PUSHV/POPV, macro-local labels, -U).  Statements the model proves faulty (consta
 unresolved PUBLIC, section qualifier outside the parent path, undefined reference) are taken out for the value
 run and put back, one class at a time, for an error run that must report errors on exactly those lines.
 """
+import re
 from vf import engine, asl, pfile
 from vf import scopemodel as sm
 from vf.gen import composite
@@ -61,17 +62,19 @@ ASSUMPTIONS = [
     "temporary symbols, PUSHV/POPV, PUBLIC/GLOBAL/FORWARD are not generated inside macro or REPT bodies (except the "
     "manual's proc macro); section qualifiers on names of macro-local labels are not generated; macros are defined "
     "at global level before use and never nested",
-    "errors inside REPT bodies (reported at the ENDM line with a REPT context) are not compared: such cases are "
-    "discarded; errors inside macro bodies are expected at the line of the call",
+    "errors inside macro bodies are expected at the line of the call; errors inside REPT/IRP bodies are reported by asl "
+    "at the line of the ENDM with a context 'REPT n(k)' / 'IRP:arg(k)': they are attributed to the k-th body line",
     "with -U, PARENTn is written in upper case (the manual does not say whether the keyword is case-sensitive)",
     "definitions never carry a [section] suffix (accepted by asl, not documented)",
+    "instruction operands: Z80 LD HL,nn (21 ll hh), 68000 MOVE.W #nn,D0 (303C hhll), 6502 JMP nn (4C ll hh), 6809 LDX "
+    "#nn (8E hh ll); a reference in an instruction operand never starts with a parenthesis",
     "data words: Z80 DW / 6502 ADR little-endian, 68000 DC.W / 6809 FDB big-endian; one NOP per label line (1/2/1/1 "
     "bytes) so that all labels have distinct values; EQU/SET values are distinct multiples of 8 from 0x2000 up",
 ]
 
 
 def budget(tier):
-    return dict(examples=6000 if tier == "quick" else 100000, shards=16)
+    return dict(examples=6000 if tier == "quick" else 60000, shards=16)
 
 
 # ------------------------------------------------------------------ execution
@@ -85,7 +88,11 @@ def expected_image(prog, res):
         if ev.item is None or ev.kind in ("open", "close", "call"):
             continue
         n = prog._size(ev.item)
-        if n and ev.kind not in ("ref", "tref", "nref", "cref"):
+        if ev.kind in ("ref", "tref", "nref", "cref"):
+            if ev.item.get("ins"):
+                for j, b in enumerate(prog.cpu["insb"]):
+                    img[ev.addr + j] = b
+        elif n:
             for j, b in enumerate(nop):
                 img[ev.addr + j] = b
     for s in res.slots:
@@ -95,9 +102,26 @@ def expected_image(prog, res):
     return img
 
 
-def errors_of(r):
-    d = asl.diagnostics(r.err + "\n" + r.out)
-    return [x for x in d if x["kind"] == "error"], [x for x in d if x["kind"] == "warning"]
+_DIAG = re.compile(r"^> > > (?P<pos>.*?): (?P<kind>error|warning|fatal error|fatal)(?: #(?P<num>\d+))?: (?P<msg>.*)$", re.M)
+
+
+def errors_of(r, prog):
+    """(errors, warnings); each with the source line the message belongs to.  Messages from inside a REPT/IRP
+    body carry the line of the ENDM plus 'REPT n(k)' / 'IRP:arg(k)': k-th line of that body; messages from
+    inside a macro body carry the line of the call.  Messages without a position get line 0."""
+    errs, warns = [], []
+    for m in _DIAG.finditer(r.err + "\n" + r.out):
+        pos = m.group("pos")
+        pm = re.match(r"([^\s(]+)\((\d+)\)(.*)$", pos)
+        line = 0
+        if pm:
+            line = int(pm.group(2))
+            cm = re.match(r" (REPT|IRP|IRPC|WHILE)[^(]*\((\d+)\)", pm.group(3))
+            if cm and line in prog.header_of_endm:
+                line = prog.header_of_endm[line] + int(cm.group(2))
+        d = dict(line=line, msg=m.group("msg"), pos=pos)
+        (warns if m.group("kind") == "warning" else errs).append(d)
+    return errs, warns
 
 
 def run_mode(prog, U, classes, nts):
@@ -112,7 +136,7 @@ def run_mode(prog, U, classes, nts):
     brief = dict(mode=mode, src=src, **r.brief(500))
     if r.signal:
         return "asl killed by signal %d" % r.signal, brief
-    errs, warns = errors_of(r)
+    errs, warns = errors_of(r, prog)
     if r.status != 0 or errs:
         return ("program without faulty statements: exit status %s, %d errors (first: line %s %s)"
                 % (r.status, len(errs), errs[0]["line"] if errs else "-", errs[0]["msg"] if errs else "-")), brief
@@ -167,7 +191,7 @@ def run_mode(prog, U, classes, nts):
         brief = dict(mode=mode, cls=cls, src=src, want=want, whys=[rec[1] for rec in fl.values()], **r.brief(800))
         if r.signal:
             return "asl killed by signal %d" % r.signal, brief
-        errs, warns = errors_of(r)
+        errs, warns = errors_of(r, prog)
         gotl = sorted({e["line"] for e in errs})
         if gotl != want or r.status == 0:
             miss = [l for l in want if l not in gotl]
@@ -213,8 +237,11 @@ def item_classes(items, classes, depth=0):
             classes.add("stack:" + ("named" if it["s"] else "default"))
             if len(it["a"]) > 1:
                 classes.add(k + "-list")
+        elif k == "irp":
+            classes.add("irp")
+            item_classes(it["body"], classes, depth)
         elif k == "rept":
-            classes.add("rept")
+            classes.add("rept" + ("-globalsymbols" if it.get("glob") else "") + ("-zero" if it["c"] == 0 else ""))
             item_classes(it["body"], classes, depth)
         elif k == "def":
             classes.add("def:" + it["how"] + ("-expr" if it.get("of") else ""))
@@ -258,11 +285,11 @@ def show(case):
 
 # ------------------------------------------------------------------ generator
 
-NAMES = ["sym", "lab", "val", "cnt", "foo", "bar"]
+NAMES = ["sym", "lab", "val", "cnt", "foo", "bar", "k9", "dot.ted"]
 SECTS = ["ModA", "ModB", "ProcA", "Sub", "Inner", "Leaf", "sym", "lab"]
 TEMPS = ["t", "loop"]
 DOTS = ["loop", "skip"]
-STACKS = ["", "", "stk", "Other"]
+STACKS = ["", "stk", "Other", "Aaa"]
 
 
 def variants(base):
@@ -466,7 +493,7 @@ class Gen:
             q = "P" if k == 1 and d.bool() else "P%d" % k
         else:
             dest = d.int(0, depth - 1)
-            q = ("=" + self.frames[dest].name) if dest > 0 else None
+            q = ("=" + (self.frames[dest].name if 1 in self.modes else self.respell_sect(self.frames[dest].name))) if dest > 0 else None
         df = self.frames[dest]
         comp = "_".join(x.name for x in self.frames[dest + 1:]) + "_" + name
         target = N if kind == "pub" else self.fold(comp)
@@ -628,13 +655,13 @@ class Gen:
         allsyms = self.sym_args(False)
         out = []
         depth = {}
-        stacks = d.shuffle(STACKS)[:d.int(1, 2)]
+        stacks = d.shuffle(STACKS)[:d.weighted([(3, 1), (3, 2), (2, 3), (1, 4)])]
 
         def arg(pool):
             n, forms = d.choice(pool)
             return dict(n=n, q=d.choice(forms))
 
-        for _ in range(d.int(1, 5)):
+        for _ in range(d.int(1, 3 + 2 * len(stacks))):
             s = d.choice(stacks)
             sp = s if (not s or 1 in self.modes or d.bool(0.6)) else d.choice([s.upper(), s.lower()])
             if depth.get(s, 0) and d.bool(0.45):
@@ -719,7 +746,7 @@ class Gen:
             deeper = depth < self.target_depth
             what = d.weighted([(5, "def"), (8, "ref"), ((5 if deeper else 2) if depth < 4 else 0, "sect"),
                                (2 if depth else 0, "export"), (2 if self.macros else 0, "call"), (1, "named"),
-                               (1, "nameless"), (1, "composed"), (1, "stack"), (1, "rept")])
+                               (1, "nameless"), (1, "composed"), (1, "stack"), (1, "rept"), (1, "irp")])
             if what == "def":
                 x = self.definition(f, base=f.todo.pop() if f.todo and d.bool(0.8) else None)
                 if x is not None:
@@ -745,6 +772,8 @@ class Gen:
                 out += self.scene_stack(f)
             elif what == "rept":
                 out += self.rept(f)
+            elif what == "irp":
+                out.append(self.irp(f))
         if depth < self.target_depth and not made_sect:
             x = self.section(f)
             if x is not None:
@@ -819,7 +848,39 @@ class Gen:
                                                       of=dict(n=v, q=None)))
                 body.insert(d.int(0, len(body)), dict(k="ref", n=v, q=None))
         self.take(len(body))
-        return pre + [dict(k="rept", c=d.int(1, 3), body=body)]
+        c = d.weighted([(3, 1), (3, 2), (2, 3), (1, 0)])
+        it = dict(k="rept", c=c, body=body)
+        if c == 1 and d.bool(0.3):
+            # {GLOBALSYMBOLS}: the labels belong to the enclosing level
+            ok = True
+            for x in body:
+                if x["k"] == "def" and x["how"] in ("lab", "lab:"):
+                    N = self.fold(x["n"])
+                    if N in f.kinds or N in f.exported:
+                        ok = False
+            if ok:
+                it["glob"] = True
+                for x in body:
+                    if x["k"] == "def" and x["how"] in ("lab", "lab:"):
+                        N = self.fold(x["n"])
+                        f.kinds[N] = "const"
+                        f.spelled[N] = x["n"]
+                        f.consts.append(x["n"])
+        return pre + [it]
+
+    def irp(self, f):
+        """IRP over symbol names: the references are made by parameter substitution"""
+        d = self.d
+        args = [self.spell(d.choice(self.visible_names())) for _ in range(d.int(1, 3))]
+        body = []
+        for _ in range(d.int(1, 3)):
+            x = dict(k="ref", n="arg")
+            x.update(self.qualifier())
+            if d.bool(0.3):
+                x = self.ref()
+            body.append(x)
+        self.take(len(body))
+        return dict(k="irp", p="arg", a=args, body=body)
 
     def macro(self, name):
         d = self.d
@@ -854,6 +915,21 @@ class Gen:
         return dict(name=name, glob=glob, body=body, defs=defs)
 
 
+def decorate(d, items):
+    """put some references into small expressions"""
+    for it in items:
+        k = it["k"]
+        if k in ("ref", "tref", "cref", "nref") and d.bool(0.12):
+            it["ins"] = True
+        if k in ("ref", "tref", "cref") and d.bool(0.15):
+            # no leading parenthesis in an instruction operand: that is addressing-mode syntax on most targets
+            it["x"] = [d.choice(["+", "pre", "-", "sp"] + ([] if it.get("ins") else ["()"])), d.int(1, 7)]
+        elif k in ("sect", "proc"):
+            decorate(d, it["items"])
+        elif k in ("rept", "irp"):
+            decorate(d, it["body"])
+
+
 @composite
 def strategy_(d, tier):
     modes = d.weighted([(4, [0]), (2, [1]), (3, [0, 1])])
@@ -874,6 +950,9 @@ def strategy_(d, tier):
             break
         prog += more
     macros = [dict(name=m["name"], glob=m["glob"], body=m["body"]) for m in g.macros]
+    decorate(d, prog)
+    for m in macros:
+        decorate(d, m["body"])
     case = dict(cpu=cpu, modes=modes, macros=macros, prog=prog)
     if g.procs:
         case["procs"] = True
@@ -975,7 +1054,8 @@ def fixed_cases(tier):
     # names are distinguished on their whole length (255 characters)
     long = "n" * 254
     out.append(C([E(long + "a", 0x2000), E(long + "b", 0x2008), R(long + "a"), R(long + "b"),
-                  S("s", [E(long + "a", 0x2010), R(long + "a"), R(long + "b"), R(long + "a", "")])], modes=(0, 1)))
+                  S("s", [E(long + "a", 0x2010), R(long + "a"), R(long + "b"), R(long + "a", ""), R(long + "a", "P0"),
+                          R(long + "a", "P1"), R(long + "a", "=s"), R(long + "b", "P0")])], modes=(0, 1)))
     return out
 
 
